@@ -235,6 +235,15 @@ def caliper_rule(cx):
         a0, a1 = CMP.canon(cx.arg(s, 0)), CMP.canon(cx.arg(s, 1))
         if (match(P0, a0) is not None and match(P1, a1) is not None) or (match(P0, a1) is not None and match(P1, a0) is not None):
             ok = True
+    # the same cyclic pairing as `hull.iter().zip(hull.iter().cycle().skip(1))`: element k with element (k+1) mod n, n pairs
+    ZC = f'(itervar (call Iterator::zip {H} (call Iterator::skip (call Iterator::cycle {H}) 1)))'
+    Q0 = f'(index (call *Curve2::points (param section)) (field 0 {ZC}))'
+    Q1 = f'(index (call *Curve2::points (param section)) (field 1 {ZC}))'
+    for s in b.calls('common::points::dist'):
+        if any(s.bb in blocks for (_h, blocks, _bk) in loops):
+            a0, a1 = CMP.canon(cx.arg(s, 0)), CMP.canon(cx.arg(s, 1))
+            if (match(Q0, a0) is not None and match(Q1, a1) is not None) or (match(Q0, a1) is not None and match(Q1, a0) is not None):
+                ok = True
     cx.ob('EXPR', 'caliper_chord_line:every-hull-leg', ok,
           'the longest-leg scan measures hull[i] against its CYCLIC successor hull[(i+1) % n] for every i in 0..n: the leg that closes the hull (last vertex back to the first) is a candidate too',
           where=b.file)
